@@ -1380,6 +1380,8 @@ static int ksi_CalendarHashChain_verifyRightLinkCompatibility(const KSI_Calendar
 				++bi;
 				break;
 			}
+			/* A left link is not what is looked for: it must not be taken for the match when the list ends here. */
+			bLink = NULL;
 		}
 
 		/* If the second list did not contain any more right links, return an error. */
